@@ -206,7 +206,9 @@ Clauses(m, cfg, f, obs) ==
    THEN {<<IF KF_C16_cleanup_error_no_step(m, f) THEN "C16.no_crash/cleanup_error_no_step" ELSE "C16.no_crash", "raised", f>>}
    ELSE IF ~obs.doc.exists
    THEN (IF m.status[f] = "skipped" /\ ~cfg.show THEN {} ELSE {<<"C16.testcases", "no_document", f>>})
-   ELSE IF ~obs.doc.wellformed THEN {}                    \* C16.wellformed's business (XmlEscape), nothing to read
+   \* a report that the independent parser rejects: the first sentence of the property (the rows of this judge carry
+   \* hostile text only in the exception messages of raising hooks; every other source of text is XmlEscape's business)
+   ELSE IF ~obs.doc.wellformed THEN {<<"C16.wellformed", "run_document", f>>}
    ELSE LET scs == DocScenarios(m, f) IN
         TestcasesClause(m, cfg, f, scs, obs.doc)
         \cup CountersClause(obs.doc)
